@@ -791,6 +791,18 @@ def _(W):
     return _hessian(W, "s2", 2, "ppp2", lambda M, P: P(model_name=M.inverse_power_law, ipl_n=10, ipl_A=1.0), "o_h2")
 
 
+@event("hess.pair")
+def _(W):
+    from PyMatterSim.static.hessians import InteractionParams, ModelName, PairInteractions
+
+    a = W.args
+    out = []
+    for m, kw in ((ModelName.lennard_jones, {}), (ModelName.inverse_power_law, dict(ipl_n=12, ipl_A=1.0)), (ModelName.harmonic_hertz, dict(harmonic_hertz_alpha=2.5))):
+        for shift in (True, False):
+            out.append(PairInteractions(r=1.1, epsilon=a["epsilons"][0, 1], sigma=a["hsigmas"][0, 1], r_c=a["rcuts"][0, 1], shift=shift).caller(InteractionParams(model_name=m, **kw)))
+    return out, []
+
+
 def _nematic(W):
     from PyMatterSim.static.nematic import NematicOrder
 
@@ -1193,6 +1205,12 @@ def in_child(fn, *args):
     return pickle.loads(data)
 
 
+def show(seq):
+    """Compact rendering of a call-sequence prefix for messages."""
+    seq = list(seq)
+    return " -> ".join(seq) if len(seq) <= 4 else f"({len(seq) - 3} earlier calls) -> " + " -> ".join(seq[-3:])
+
+
 def reference_child(seed, name):
     """Result of one event from the initial state."""
     W = World(seed)
@@ -1210,7 +1228,7 @@ def sequence_child(seed, seq):
     elem = 0
     calls = []
     for k, name in enumerate(seq):
-        prefix = " -> ".join(seq[: k + 1])
+        prefix = show(seq[: k + 1])
         try:
             res, files = EVENTS[name](W)
         except Exception as e:
